@@ -73,12 +73,16 @@ type WObs struct {
 
 // ROp is one call on the reading side of a tunnel end.
 type ROp struct {
-	Kind string `json:"kind"` // read | writeto | tunnel | writeto-sink | writeto-badsink
+	Kind string `json:"kind"` // read | writeto | tunnel | writeto-sink | writeto-badsink | tunnel-fail
 	N    int    `json:"n,omitempty"`
 	// writeto-sink: the results of the sink's Write calls (then it takes everything);
 	// writeto-badsink: the sink's first Write takes half of what is offered and returns nil (outside the
 	// io.Writer contract: run against the code, reported in the evidence, no verdict, schedule ends)
 	Sink []SinkIt `json:"sink,omitempty"`
+	// tunnel-fail: tunnel copy into a conn whose transport fails at its FailAt-th write of the copy, after
+	// FailKeep bytes of that write
+	FailAt   int `json:"fail_at,omitempty"`
+	FailKeep int `json:"fail_keep,omitempty"`
 	// tunnel: entered through the reader's WriteTo (false) or the destination's ReadFrom (true)
 	ViaReadFrom bool `json:"via_readfrom,omitempty"`
 }
@@ -499,6 +503,28 @@ func RunOps(rd netio.Conn, ops []ROp, cfg Cfg, target Target, clientReader, sink
 				n, err := rd.(io.WriterTo).WriteTo(sink)
 				o.N, o.Err = n, "badsink:"+ErrClass(err)
 				o.Bytes = sink.got
+			case "tunnel-fail":
+				aux, err := newAux(cfg, target, clientReader, true)
+				if err != nil {
+					o.Err = "harness:" + err.Error()
+					return
+				}
+				var dst netio.Conn = aux.client
+				tr := aux.cdial.Last
+				if clientReader {
+					dst, tr = aux.server, aux.sconn
+				}
+				tr.FailWrite, tr.FailKeep = max(op.FailAt, 1), op.FailKeep
+				var n int64
+				if op.ViaReadFrom {
+					n, err = dst.(io.ReaderFrom).ReadFrom(rd)
+				} else {
+					n, err = rd.(io.WriterTo).WriteTo(dst)
+				}
+				o.N, o.Err = n, ErrClass(err)
+				ps, _ := aux.pieces(clientReader, true) // the wire ends in the cut write: undecodable tail expected
+				o.Pieces = ps
+				o.Bytes = bytes.Join(ps, nil)
 			case "tunnel":
 				aux, err := newAux(cfg, target, clientReader, sinkStarted)
 				if err != nil {
@@ -543,6 +569,10 @@ func OpLine(sid int, side string, op ROp, now int64, started bool) string {
 		return fmt.Sprintf("%d swritetosink %s", sid, sinkSpec(op.Sink))
 	case op.Kind == "writeto-sink":
 		return fmt.Sprintf("%d cwritetosink %d %s", sid, now, sinkSpec(op.Sink))
+	case side == "s" && op.Kind == "tunnel-fail":
+		return fmt.Sprintf("%d stunnelsink %d", sid, max(op.FailAt, 1))
+	case op.Kind == "tunnel-fail":
+		return fmt.Sprintf("%d ctunnelsink %d %d", sid, now, max(op.FailAt, 1))
 	case side == "s" && op.Kind == "writeto":
 		return fmt.Sprintf("%d swriteto", sid)
 	case side == "s":
@@ -898,7 +928,10 @@ type HandleObs struct {
 	User        string
 	Payload     []byte
 	FallbackPay []byte
-	FirstSeg    int
+	// what the fallback destination reads from the conn after the payload (FallbackConn: Proceed worked)
+	FallbackRest []byte
+	FallbackConn bool
+	FirstSeg     int
 }
 
 // Present hands `wire` (cut by sizes) to a fresh real server of cfg, records the driver's `handle`
@@ -931,6 +964,11 @@ func Present(cfg Cfg, wire []byte, sizes []int, sid int, sc *Script) (h HandleOb
 		sc.Add(line, "error "+h.Err)
 	case req.Addr.Equals(FallbackAddr):
 		h.Kind, h.FallbackPay = "fallback", pay
+		// end to end: the fallback destination gets the payload and then reads the raw conn
+		if fc, perr := req.Proceed(); perr == nil {
+			h.FallbackRest, _ = io.ReadAll(fc)
+			h.FallbackConn = true
+		}
 		sc.Add(line, "fallback "+Sum(pay))
 	default:
 		h.Kind = "request"
